@@ -70,6 +70,26 @@ def rot (p : Pt α) : M3 α := zxz p.phi.c p.phi.s p.theta.c p.theta.s p.psi.c p
 /-- `from_euler("zxz", -[psi, theta, phi])` — what the code uses as the inverse orientation -/
 def rotInv (p : Pt α) : M3 α := zxz p.psi.c (-p.psi.s) p.theta.c (-p.theta.s) p.phi.c (-p.phi.s)
 
+/-! #### column access (`Motl.get_angles`, `Motl.get_feature`) and `Rotation.from_euler("zxz", ·)` on a row of angles -/
+
+/-- the angle column of that name (`get_feature` on a name that is no angle column gives nothing here) -/
+def Pt.angleCol (p : Pt α) : String → Option (Ang α)
+  | "phi" => some p.phi
+  | "theta" => some p.theta
+  | "psi" => some p.psi
+  | _ => none
+
+/-- `fm.get_feature([c₁, c₂, …])` / `fm.df[[c₁, c₂, …]].values` for angle columns: one particle's values, in the order asked for -/
+def getFeature (cols : List String) (p : Pt α) : List (Ang α) := cols.filterMap p.angleCol
+
+/-- the unary minus in `-fm_a.get_feature([...])`: cos(−a) = cos a, sin(−a) = −sin a -/
+def Ang.neg (a : Ang α) : Ang α := ⟨a.c, -a.s⟩
+
+/-- `srot.from_euler("zxz", angles=[a, b, c], degrees=True)` on one row of three angles -/
+def fromEuler : List (Ang α) → Option (M3 α)
+  | [a, b, c] => some (zxz a.c a.s b.c b.s c.c c.s)
+  | _ => none
+
 def trace (m : M3 α) : α := m.a11 + m.a22 + m.a33
 
 /-- squared length of the axial vector of `m − mᵀ` (= 4·sin² of the rotation angle) -/
@@ -121,6 +141,11 @@ variable [Add α] [Sub α] [Mul α] [Neg α] [OfNat α 0] [OfNat α 1] [LE α] [
 /-- `get_motl_subset(f, "tomo_id")`: the particles of tomogram `t`, in list order -/
 def subset (t : Int) (l : List (Pt α)) : List (Pt α) := l.filter (fun p => p.tomo == t)
 
+/-- `get_motl_subset(feature_values, "tomo_id")` as written: for every requested value in turn the rows
+`df[tomo_id] == value` (list order kept), concatenated; `reset_index(drop=True)` = positions in the result count from 0,
+which is how `nnana` indexes the subset (`idx`, `nn_idx`). `nnana` asks for ONE value: `motlSubset [t] = subset t`. -/
+def motlSubset (vals : List Int) (l : List (Pt α)) : List (Pt α) := vals.flatMap (fun v => l.filter (fun p => p.tomo == v))
+
 /-- sort key of candidate number `j` for query `q` (`q` itself stands in for indices out of range) -/
 def keyOf (q : Pt α) (cn : List (Pt α)) (j : Nat) : α := d2 q (cn.getD j q)
 
@@ -134,6 +159,20 @@ def tomoRows (S : Num α) (px : α) (k : Nat) (a nn : List (Pt α)) (t : Int) : 
   let res := qa.map (fun q => (q, neighbours k q cn))
   (List.range (min k cn.length)).flatMap (fun i =>
     res.map (fun qn => let j := qn.2.getD i 0; mkRow S px t i qn.1 j (cn.getD j qn.1)))
+
+/-- `tomoRows` with the neighbour search left open: `nb q cn` is whatever the search structure (the KD-tree) answers for
+query `q` among the candidates `cn` -/
+def tomoRowsWith (nb : Pt α → List (Pt α) → List Nat) (S : Num α) (px : α) (k : Nat) (a nn : List (Pt α)) (t : Int) :
+    List (Row α) :=
+  let qa := subset t a
+  let cn := subset t nn
+  let res := qa.map (fun q => (q, nb q cn))
+  (List.range (min k cn.length)).flatMap (fun i =>
+    res.map (fun qn => let j := qn.2.getD i 0; mkRow S px t i qn.1 j (cn.getD j qn.1)))
+
+/-- the table computed with an arbitrary neighbour search -/
+def nnStatsWith (nb : Pt α → List (Pt α) → List Nat) (S : Num α) (px : α) (k : Nat) (a nn : List (Pt α)) : List (Row α) :=
+  (features (a.map (·.tomo)) (nn.map (·.tomo))).flatMap (tomoRowsWith nb S px k a nn)
 
 /-- the table of `get_nn_stats`: tomograms ascending, then rank, then query -/
 def nnStats (S : Num α) (px : α) (k : Nat) (a nn : List (Pt α)) : List (Row α) :=
